@@ -32,7 +32,7 @@ D == INSTANCE Decoder WITH TecmpDecode <- NoTecmp
 Pk(x, mt, n) ==
     [mt |-> mt, pt |-> IF mt = MtData THEN 255 ELSE 200 + x, ver |-> 1,
      ts |-> << 1, 2, 3, 4, 5, 6, 7, x >>, ifid |-> << 10, 11, 12, x >>, vid |-> 4660 + x,
-     fl |-> IF x = 2 THEN 33 ELSE 0,
+     fl |-> IF x = 2 THEN 33 ELSE IF x = 3 THEN 13 ELSE 0,       \* packet 3 carries bits of the segmentation field
      pl |-> [j \in 1..n |-> (16 * x + j) % 256]]
 
 Shapes == MtSet \X LenSet
